@@ -5,6 +5,10 @@ ROOT = os.path.dirname(os.path.dirname(os.path.abspath(__file__)))
 
 # id -> (technique, level text, level note, design ref)
 CHECKS = {
+ "C09": ("translation-validation style differential through cfg-guarded hooks: every generated template set is compiled with the fusion pass off and on; (1) structural lock-step walk over the recorded instruction listings (only LoadName LoadAttr* [WriteTop] groups merged, no absorbed jump target, every jump lands on the image of its target), (2) both compilations rendered with the same generated contexts must agree",
+         "Exploration: 570 fixed jump-next-to-path shapes x 18 contexts enumerated completely, then 210k generated sets (quick; x25 thorough): path-heavy programs (and/or, ternaries, if/elif, loops with break/continue, comprehensions, kwargs, captures, ?. and __tera_context), the C02 expression and C03 statement generators, inheritance and component chunks; ~300k chunks structurally checked per quick run.",
+         "Trusted base: the hooks in tera/src/verif.rs (additive, dead without --cfg tera_verif) and the Debug listing of Chunk. Contexts in which the outcome depends on map iteration order are filtered out with the reference interpreter (used as a filter only) and counted.",
+         "DESIGN.md section 4 C09"),
  "C03": ("differential against a reference interpreter (scope chain, loop bookkeeping, capture stack, includes, autoescape at the sink) over proptest-generated multi-template programs instrumented with observation points that print every name of a shared pool (and loop.*) after every statement; order-insensitive multiset comparison for loops over multi-entry maps",
          "Exploration: 450k generated three-template programs (quick; x20 thorough, depth 4) mixing if/elif/else, for/else over arrays, multi-byte strings and maps, break/continue, set/set_global, set blocks with filter chains, filter sections and includes, with render context, global context, assignments and loop variables all drawn from the same 6 names so the four scopes shadow each other; 40k map loops compared as multisets.",
          "Trusted base: the reference interpreter (harness/src/stmt.rs, expr.rs). Included templates never extend; outcomes the documentation leaves open are discarded and counted.",
